@@ -6,7 +6,7 @@ set -u
 P="$1"; K="$2"; shift 2
 CHECKS=("$@"); [ ${#CHECKS[@]} -eq 0 ] && CHECKS=("$P")
 ROOT="$(cd "$(dirname "${BASH_SOURCE[0]}")" && pwd)"
-SRC="/tmp/seed-$P/out/$K"
+SRC="${SEED_SRC:-/tmp/seed-$P/out/$K}"
 DST="$ROOT/seeded/$P-$K"
 export GOFLAGS=-mod=mod GOPROXY=off GOSUMDB=off GOTOOLCHAIN=local
 if [ -f "$SRC/patch.diff" ]; then
